@@ -443,6 +443,118 @@ func chainRule(c *core.Ctx) {
 				}
 			}
 		}
+		// polarity: a looked-up value is used only where its own ok is established true; a character / septet is rejected
+		// (error return, `return false`, listed as invalid) only where the lookups that could accept it are established false
+		{
+			okOf := map[*ssa.Lookup]ssa.Value{}
+			for _, lk := range lookups {
+				if lk.Referrers() != nil {
+					for _, r := range *lk.Referrers() {
+						if ex, ok := r.(*ssa.Extract); ok && ex.Index == 1 {
+							okOf[lk] = ex
+						}
+					}
+				}
+			}
+			// edge facts about lookup oks that hold on entry to b
+			facts := func(b *ssa.BasicBlock) (trueOk, falseOk map[*ssa.Lookup]bool, danglingEsc bool) {
+				trueOk, falseOk = map[*ssa.Lookup]bool{}, map[*ssa.Lookup]bool{}
+				lenTests := 0 // comparisons of an index with len(...) on the way: the loop condition is one, a second one is the dangling-escape test
+				defer func() { danglingEsc = lenTests >= 2 }()
+				for d := b; d.Idom() != nil; d = d.Idom() {
+					id := d.Idom()
+					ifi, ok := id.Instrs[len(id.Instrs)-1].(*ssa.If)
+					if !ok || id.Succs[0] == id.Succs[1] {
+						continue
+					}
+					viaTrue, viaFalse := viaEdge(id, d)
+					cond := ifi.Cond
+					if u, ok := cond.(*ssa.UnOp); ok && u.Op == token.NOT {
+						cond = u.X
+						viaTrue, viaFalse = viaFalse, viaTrue
+					}
+					for lk, okv := range okOf {
+						if cond == okv {
+							if viaTrue {
+								trueOk[lk] = true
+							}
+							if viaFalse {
+								falseOk[lk] = true
+							}
+						}
+					}
+					if bo, ok := cond.(*ssa.BinOp); ok && (viaTrue || viaFalse) {
+						// index compared with len(...) in either operand order: the index ran past the end after an escape indicator
+						for _, side := range []ssa.Value{bo.X, bo.Y} {
+							if call, ok := side.(*ssa.Call); ok {
+								if bi, ok := call.Call.Value.(*ssa.Builtin); ok && bi.Name() == "len" {
+									switch bo.Op {
+									case token.GEQ, token.GTR, token.LEQ, token.LSS:
+										lenTests++
+									}
+								}
+							}
+						}
+					}
+				}
+				return
+			}
+			for _, lk := range lookups {
+				if lk.Referrers() == nil {
+					continue
+				}
+				for _, r := range *lk.Referrers() {
+					ex, ok := r.(*ssa.Extract)
+					if !ok || ex.Index != 0 || ex.Referrers() == nil {
+						continue
+					}
+					for _, use := range *ex.Referrers() {
+						if _, isDbg := use.(*ssa.DebugRef); isDbg {
+							continue
+						}
+						if t, _, _ := facts(use.Block()); !t[lk] {
+							problems = append(problems, "the value looked up in "+globalOf(lk.X)+" is used at "+c.Prog.Pos(use.Pos())+" where its ok is not established true (a missing entry yields the zero value)")
+						}
+					}
+				}
+			}
+			for _, b := range fn.Blocks {
+				reject := ""
+				for _, ins := range b.Instrs {
+					switch x := ins.(type) {
+					case *ssa.Return:
+						for _, rv := range x.Results {
+							if u, ok := rv.(*ssa.UnOp); ok {
+								if g, ok := u.X.(*ssa.Global); ok && strings.HasPrefix(g.Name(), "ErrInvalid") {
+									reject = "returns " + g.Name()
+								}
+							}
+							if k, ok := rv.(*ssa.Const); ok && k.Value != nil && k.Value.Kind() == constant.Bool && !constant.BoolVal(k.Value) && strings.HasPrefix(f.name, "IsValid") {
+								reject = "returns false"
+							}
+						}
+					case *ssa.Call:
+						if bi, ok := x.Call.Value.(*ssa.Builtin); ok && bi.Name() == "append" && strings.HasPrefix(f.name, "Validate") {
+							reject = "lists the character as invalid"
+						}
+					}
+				}
+				if reject == "" {
+					continue
+				}
+				_, fOk, dangling := facts(b)
+				tables := map[string]bool{}
+				for lk := range fOk {
+					tables[globalOf(lk.X)] = true
+				}
+				switch {
+				case f.encode && !(tables[want[0]] && tables[want[1]]):
+					problems = append(problems, "the block at "+c.Prog.Pos(b.Instrs[0].Pos())+" "+reject+" although the character was not established absent from both "+want[0]+" and "+want[1])
+				case !f.encode && !(tables[want[0]] || tables[want[1]] || dangling):
+					problems = append(problems, "the block at "+c.Prog.Pos(b.Instrs[0].Pos())+" "+reject+" although no lookup of the septet was established to have failed")
+				}
+			}
+		}
 		// emission on the decode side: every looked-up rune reaches the output through a rune-wide sink (WriteRune /
 		// utf8.AppendRune / utf8.EncodeRune / string(rune)); a narrowing of the rune (byte(r)) loses the non-ASCII characters
 		if f.name == "Decode" || f.typ == "gsm7Decoder" {
@@ -555,8 +667,22 @@ func wiringRule(c *core.Ctx, key string, fn *ssa.Function, pack bool) {
 			headerPhis[ph] = true
 		}
 	}
-	offsetFromPhi := func(idx ssa.Value) (*ssa.Phi, int64, bool) {
-		l := p.LinOf(idx)
+	// element address -> (buffer, linear offset): re-slicing (in := septets[n:]; in[k]) is folded into the offset
+	originOf := func(ia *ssa.IndexAddr) (ssa.Value, prover.Lin) {
+		root, lin := ia.X, p.LinOf(ia.Index)
+		for i := 0; i < 6; i++ {
+			sl, ok := root.(*ssa.Slice)
+			if !ok {
+				break
+			}
+			if sl.Low != nil {
+				lin = lin.Add(p.LinOf(sl.Low), 1)
+			}
+			root = sl.X
+		}
+		return root, lin
+	}
+	offsetFromLin := func(l prover.Lin) (*ssa.Phi, int64, bool) {
 		if len(l.T) != 1 {
 			return nil, 0, false
 		}
@@ -587,17 +713,18 @@ func wiringRule(c *core.Ctx, key string, fn *ssa.Function, pack bool) {
 		if !ok {
 			return ""
 		}
-		_, off, ok := offsetFromPhi(ia.Index)
+		root, lin := originOf(ia)
+		_, off, ok := offsetFromLin(lin)
 		if !ok {
 			return ""
 		}
 		if inBuf == nil {
-			inBuf = ia.X
+			inBuf = root
 		}
-		if ia.X != inBuf {
+		if root != inBuf {
 			return ""
 		}
-		leafCache[v] = &leafInfo{buf: ia.X, off: off}
+		leafCache[v] = &leafInfo{buf: root, off: off}
 		return fmt.Sprintf("in%d", off)
 	}}
 	var outs []emitted
@@ -620,7 +747,8 @@ func wiringRule(c *core.Ctx, key string, fn *ssa.Function, pack bool) {
 				if _, isAlloc := ia.X.(*ssa.Alloc); isAlloc {
 					continue // varargs temporaries
 				}
-				if _, j, ok := offsetFromPhi(ia.Index); ok {
+				_, olin := originOf(ia)
+				if _, j, ok := offsetFromLin(olin); ok {
 					outs = append(outs, emitted{r: r, j: j, val: x.Val, pos: x.Pos(), blk: b})
 				}
 			case *ssa.Call:
@@ -904,8 +1032,16 @@ func crRule(c *core.Ctx, key string, fn *ssa.Function, pack bool) {
 				if pack {
 					if u, ok := ins.(*ssa.UnOp); ok && u.Op == token.MUL {
 						if ia, ok := u.X.(*ssa.IndexAddr); ok {
-							if _, isAlloc := ia.X.(*ssa.Alloc); !isAlloc && septetLen == nil {
-								l := p.LenOf(ia.X)
+							root := ia.X
+							for i := 0; i < 6; i++ { // in := septets[n:] is the same buffer
+								if sl, ok := root.(*ssa.Slice); ok {
+									root = sl.X
+								} else {
+									break
+								}
+							}
+							if _, isAlloc := root.(*ssa.Alloc); !isAlloc && septetLen == nil {
+								l := p.LenOf(root)
 								septetLen = &l
 							}
 						}
